@@ -16,7 +16,7 @@ EXPLANATION = (
     "is incremented with the assignment (R4).")
 ASSUMPTIONS = ["hwloc-based topology queries return consistent numbers", "pika::detail::throws_if throws unless the caller supplied an error_code"]
 THOROUGH_CONFIGS = [["-UNDEBUG", "-DPIKA_DEBUG"]]
-FLOORS = {"C15.R1": 6, "C15.R2": 4, "C15.R3": 8, "C15.R4": 2, "C15.R5": 8}
+FLOORS = {"C15.R1": 6, "C15.R2": 4, "C15.R3": 8, "C15.R4": 2, "C15.R5": 8, "C15.R6": 4}
 
 DEC = ["decode_compact_distribution", "decode_scatter_distribution", "decode_balanced_distribution", "decode_numabalanced_distribution"]
 
@@ -166,6 +166,7 @@ def run(rep, tier):
     rep.rule("C15.R2", "K8: num_pus[i] = get_pu_number(a, b) and affinities[i] = init_thread_affinity_mask(a, b) use identical (a, b); the process mask is consulted")
     rep.rule("C15.R3", "K8: thread_func binds to affinity_data_.get_pu_mask(topo, global_thread_num) (machine mask if empty); workers numbered thread_offset_ + i")
     rep.rule("C15.R5", "K4 (value flow): every PU index a worker is bound to (init_thread_affinity_mask / get_pu_number) individually passed pu_in_process_mask: tested directly, equal to the tested index by linear bookkeeping, or read unmodified from a container filled only with such indices")
+    rep.rule("C15.R6", "K8 (index spaces; sibling conversions in topology.cpp): OS cpusets and the user's process mask are numbered by OS CPU index, pika's masks by hwloc logical index. Every conversion loop sets the logical bit get_index(pu) exactly under the test of bit pu->os_index of the source (hwloc_bitmap_isset / test) for the same PU object")
     rep.rule("C15.R4", "K4/K8: add_resource assigns a PU only when unoccupied (unless oversubscription is allowed) and increments the occupancy with it")
 
     A = facts(rep, lib("affinity", "src/parse_affinity_options.cpp"), [r"^pika::detail::(decode_\w+_distribution|check_num_threads|pu_in_process_mask)$"])
@@ -248,6 +249,49 @@ def run(rep, tier):
     # ---- R5: the bound PU index is an individually tested one
     for d in DEC:
         tested_index_rule(rep, fn(d), d)
+
+    # ---- R6: physical -> logical conversions
+    from engine.kinds import reaching_init
+    TP = facts(rep, lib("topology", "src/topology.cpp"), [r"^pika::threads::detail::topology::"])
+    n6 = 0
+    for f in TP.fns:
+        if f.parent != -1:
+            continue
+        ff6 = None
+        # a conversion reads a source mask / cpuset: functions without any bit test build masks from topology objects
+        if not any(e.get("k") == "call" and callee_short(e) in ("test", "hwloc_bitmap_isset") for _, _, e in f.all_events()):
+            continue
+        for b, i, ev in f.all_events():
+            if not (ev.get("k") == "call" and callee_short(ev) == "set" and len(ev.get("args", [])) == 2):
+                continue
+            m = re.match(r"^get_index\((\w+)\)$", T(strip(ev["args"][1])))
+            if not m:
+                continue
+            obj = m.group(1)
+            n6 += 1
+            ff6 = ff6 or FactFlow(f, eh=False)
+            fb = ff6.before.get((b, i)) or frozenset()
+            good = False
+            seen_tests = []
+            for a, t in fb:
+                mm = re.match(r"^(?:0 == |)(hwloc_bitmap_isset|test)\((.+),(\w+)\)(?: == 0| != 0|)$", a)
+                if not mm:
+                    continue
+                # normalised atoms: 'hwloc_bitmap_isset(cpuset,idx) == 0' False  or  'test(mask,idx)' True
+                positive = (t and not a.endswith("== 0") and not a.startswith("0 == ")) or ((not t) and (a.endswith("== 0") or a.startswith("0 == ")))
+                idxv = mm.group(3)
+                seen_tests.append((a, t))
+                ini = reaching_init(f, idxv, (b, i))
+                if positive and ini is not None and re.search(r"\b%s->os_index\b" % re.escape(obj), T(ini)):
+                    good = True
+            if good:
+                rep.ok("C15.R6", f, "%s: logical bit get_index(%s) set under the test of bit %s->os_index of the source" % (f.qname.rsplit("::", 1)[-1], obj, obj))
+            else:
+                rep.bad("C15.R6", f, loc_of(ev), "index-space:" + f.qname.rsplit("::", 1)[-1], "%s sets logical bit get_index(%s) without testing bit %s->os_index of the "
+                        "OS-numbered source (tests seen: %s): on machines whose OS CPU numbers differ from hwloc's logical order (SMT, multi-socket) the mask selects "
+                        "other PUs than the ones given - workers are bound outside the requested process mask" % (f.qname.rsplit("::", 1)[-1], obj, obj, seen_tests[:2]))
+    if n6 < 4:
+        raise AnalysisBroken("C15.R6: only %d physical->logical conversions found in topology.cpp" % n6)
 
     # ---- R3
     PL = facts(rep, lib("thread_pools", "src/scheduled_thread_pool.cpp"), [r"^pika::threads::detail::scheduled_thread_pool::(thread_func|run)$"])
